@@ -78,7 +78,7 @@ class TxSpec(Spec):
         self.n_validate = 1 if tier == "quick" else 3      # each amaranth.sim replay costs seconds to set up
         self.n = cfg["buffers"]
         self.max_depth = cfg["depth"]
-        self.time_budget = 200 if tier == "quick" else 840
+        self.time_budget = 400 if tier == "quick" else 840
         self.max_states = 1_500_000 if tier == "quick" else 6_000_000
 
     def build(self):
